@@ -74,43 +74,6 @@ theorem secTable_ext (s : Sect) (n : Nat) : (secTable s).ext n = lastComp s n :=
   rw [foldl_insertEnt_ext]
   cases lastComp s n <;> simp [Table.empty, Map.empty]
 
-theorem foldl_merge_entries (chain : List Sect) (m : Table) (n : Nat) :
-    (chain.foldl (fun m s => mergeInto m (secTable s)) m).entries n =
-      match m.entries n with
-      | some b => some b
-      | none => (newest chain n).map toBasic := by
-  induction chain generalizing m with
-  | nil => cases h : m.entries n <;> simp [newest, h]
-  | cons s r ih =>
-    rw [List.foldl_cons, ih]
-    simp only [mergeInto, Map.orMerge, newest, secTable_entries]
-    cases h : m.entries n with
-    | some b => simp
-    | none =>
-      cases h2 : lastOf s n <;> simp
-
-theorem foldl_merge_ext (chain : List Sect) (m : Table) (n : Nat) :
-    (chain.foldl (fun m s => mergeInto m (secTable s)) m).ext n =
-      match m.ext n with
-      | some c => some c
-      | none => firstComp chain n := by
-  induction chain generalizing m with
-  | nil => cases h : m.ext n <;> simp [firstComp, h]
-  | cons s r ih =>
-    rw [List.foldl_cons, ih]
-    simp only [mergeInto, Map.orMerge, firstComp, secTable_ext]
-    cases h : m.ext n with
-    | some b => simp
-    | none =>
-      cases h2 : lastComp s n <;> simp
-
-theorem merge_entries (chain : List Sect) (n : Nat) :
-    (merge chain).entries n = (newest chain n).map toBasic := by
-  unfold merge; rw [foldl_merge_entries]; simp [Table.empty, Map.empty]
-
-theorem merge_ext (chain : List Sect) (n : Nat) : (merge chain).ext n = firstComp chain n := by
-  unfold merge; rw [foldl_merge_ext]; simp [Table.empty, Map.empty]
-
 /-- a section whose last entry for `n` is compressed has that entry as its last compressed one -/
 theorem lastComp_of_lastOf_comp (s : Sect) (n a b : Nat) (h : lastOf s n = some (.comp a b)) :
     lastComp s n = some (a, b) := by
@@ -163,6 +126,86 @@ theorem lastComp_none_of_lastOf_none (s : Sect) (n : Nat) (h : lastOf s n = none
       · simp [hk] at h
       · simp [lastComp, ih hr, hk]
 
+theorem foldl_merge_entries (chain : List Sect) (m : Table) (n : Nat) :
+    (chain.foldl (fun m s => mergeInto m (secTable s)) m).entries n =
+      match m.entries n with
+      | some b => some b
+      | none => (newest chain n).map toBasic := by
+  induction chain generalizing m with
+  | nil => cases h : m.entries n <;> simp [newest, h]
+  | cons s r ih =>
+    rw [List.foldl_cons, ih]
+    simp only [mergeInto, Map.orMerge, newest, secTable_entries]
+    cases h : m.entries n with
+    | some b => simp
+    | none =>
+      cases h2 : lastOf s n <;> simp
+
+theorem foldl_merge_ext (chain : List Sect) (m : Table) (n : Nat) :
+    (chain.foldl (fun m s => mergeInto m (secTable s)) m).ext n =
+      match m.ext n with
+      | some c => some c
+      | none => if (m.entries n).isSome then none else extOf chain n := by
+  induction chain generalizing m with
+  | nil => cases h : m.ext n <;> simp [extOf, h]
+  | cons s r ih =>
+    rw [List.foldl_cons, ih]
+    simp only [mergeInto, Map.orMerge, extOf, secTable_ext, secTable_entries]
+    cases h : m.ext n with
+    | some b => cases h1 : m.entries n <;> simp
+    | none =>
+      cases h1 : m.entries n with
+      | some b => simp
+      | none =>
+        cases h2 : lastOf s n with
+        | none => simp [lastComp_none_of_lastOf_none s n h2]
+        | some e => cases h3 : lastComp s n <;> simp
+
+/-- the merge before the repair: both maps independently -/
+theorem foldl_mergeOld_entries (chain : List Sect) (m : Table) (n : Nat) :
+    (chain.foldl (fun m s => mergeIntoOld m (secTable s)) m).entries n =
+      match m.entries n with
+      | some b => some b
+      | none => (newest chain n).map toBasic := by
+  induction chain generalizing m with
+  | nil => cases h : m.entries n <;> simp [newest, h]
+  | cons s r ih =>
+    rw [List.foldl_cons, ih]
+    simp only [mergeIntoOld, Map.orMerge, newest, secTable_entries]
+    cases h : m.entries n with
+    | some b => simp
+    | none =>
+      cases h2 : lastOf s n <;> simp
+
+theorem foldl_mergeOld_ext (chain : List Sect) (m : Table) (n : Nat) :
+    (chain.foldl (fun m s => mergeIntoOld m (secTable s)) m).ext n =
+      match m.ext n with
+      | some c => some c
+      | none => firstComp chain n := by
+  induction chain generalizing m with
+  | nil => cases h : m.ext n <;> simp [firstComp, h]
+  | cons s r ih =>
+    rw [List.foldl_cons, ih]
+    simp only [mergeIntoOld, Map.orMerge, firstComp, secTable_ext]
+    cases h : m.ext n with
+    | some b => simp
+    | none =>
+      cases h2 : lastComp s n <;> simp
+
+theorem mergeOld_entries (chain : List Sect) (n : Nat) :
+    (mergeOld chain).entries n = (newest chain n).map toBasic := by
+  unfold mergeOld; rw [foldl_mergeOld_entries]; simp [Table.empty, Map.empty]
+
+theorem mergeOld_ext (chain : List Sect) (n : Nat) : (mergeOld chain).ext n = firstComp chain n := by
+  unfold mergeOld; rw [foldl_mergeOld_ext]; simp [Table.empty, Map.empty]
+
+theorem merge_entries (chain : List Sect) (n : Nat) :
+    (merge chain).entries n = (newest chain n).map toBasic := by
+  unfold merge; rw [foldl_merge_entries]; simp [Table.empty, Map.empty]
+
+theorem merge_ext (chain : List Sect) (n : Nat) : (merge chain).ext n = extOf chain n := by
+  unfold merge; rw [foldl_merge_ext]; simp [Table.empty, Map.empty]
+
 /-- closed form of the first loop of `add_headers_latest_wins` -/
 theorem foldl_insert_latest (hs : List Header) (m : Map Header) (k : Nat) :
     (hs.foldl (fun m h => m.insert h.num h) m) k =
@@ -193,30 +236,83 @@ theorem latestOf_eq (hs : List Header) (k : Nat) :
   rw [foldl_insert_latest]
   cases (hs.filter (fun h => h.num = k)).getLast? <;> simp [Map.empty]
 
-/-- `NoKindFlip` pins `firstComp` to the newest mention. -/
-theorem firstComp_of_noKindFlip (chain : List Sect) (n : Nat) (h : NoKindFlip chain n) :
-    (match firstComp chain n with
-      | some (a, b) => some (Ent.comp a b)
-      | none => newest chain n) = newest chain n := by
+/-- a number listed at most once: the section's last compressed entry for it is its (only) entry
+    when that one is compressed, and there is none otherwise -/
+theorem lastComp_of_listedOnce (s : Sect) (n : Nat) (h : ListedOnce s n) :
+    lastComp s n =
+      match lastOf s n with
+      | some (.comp a b) => some (a, b)
+      | _ => none := by
+  induction s with
+  | nil => simp [lastComp, lastOf]
+  | cons p r ih =>
+    obtain ⟨k, e⟩ := p
+    unfold ListedOnce at h ih
+    by_cases hk : k = n
+    · subst hk
+      simp only [List.filter_cons, decide_true, if_true, List.length_cons] at h
+      have hnil : r.filter (fun p => decide (p.1 = k)) = [] := by
+        apply List.eq_nil_of_length_eq_zero; omega
+      have hlo : lastOf r k = none := by
+        clear ih h
+        induction r with
+        | nil => rfl
+        | cons q r' ih' =>
+          obtain ⟨k', e'⟩ := q
+          simp only [List.filter_cons] at hnil
+          by_cases hk' : k' = k
+          · simp [hk'] at hnil
+          · simp only [hk', decide_false, Bool.false_eq_true, if_false] at hnil
+            simp [lastOf, ih' hnil, hk']
+      simp only [lastComp, lastOf, hlo, lastComp_none_of_lastOf_none r k hlo, if_true]
+      cases e <;> rfl
+    · have hr : (r.filter (fun p => decide (p.1 = n))).length ≤ 1 := by
+        simpa [List.filter_cons, hk] using h
+      have := ih hr
+      simp only [lastComp, lastOf, hk, if_false]
+      rw [this]
+      cases lastOf r n with
+      | none => rfl
+      | some x => cases x <;> rfl
+
+/-- over valid sections the kept compressed entry is the newest mention, when that is compressed -/
+theorem extOf_of_listedOnce (chain : List Sect) (n : Nat) (h : ∀ s ∈ chain, ListedOnce s n) :
+    extOf chain n =
+      match newest chain n with
+      | some (.comp a b) => some (a, b)
+      | _ => none := by
   induction chain with
-  | nil => simp [firstComp, newest]
+  | nil => rfl
   | cons s r ih =>
-    unfold NoKindFlip at h
+    have hs := h s (List.mem_cons_self ..)
+    have hr := ih (fun t ht => h t (List.mem_cons_of_mem _ ht))
+    simp only [extOf, newest]
     cases hl : lastOf s n with
-    | none =>
-      rw [hl] at h
-      simp only [firstComp, newest, hl, lastComp_none_of_lastOf_none s n hl]
-      exact ih h
+    | none => simpa using hr
     | some e =>
-      rw [hl] at h
-      cases e with
-      | comp x y =>
-        simp [firstComp, newest, hl, lastComp_of_lastOf_comp s n x y hl]
-      | free x y =>
-        simp only at h
-        rw [h]
-      | inuse x y =>
-        simp only at h
-        rw [h]
+      have := lastComp_of_listedOnce s n hs
+      rw [hl] at this
+      simpa using this
+
+/-- sections whose numbers are pairwise distinct list every number at most once -/
+theorem listedOnce_of_nodup (s : Sect) (h : (s.map Prod.fst).Nodup) (m : Nat) : ListedOnce s m := by
+  unfold ListedOnce
+  induction s with
+  | nil => simp
+  | cons p r ih =>
+    obtain ⟨k, e⟩ := p
+    simp only [List.map_cons, List.nodup_cons] at h
+    have hr := ih h.2
+    by_cases hk : k = m
+    · subst hk
+      have hnil : r.filter (fun p => decide (p.1 = k)) = [] := by
+        rw [List.filter_eq_nil_iff]
+        intro q hq hqk
+        apply h.1
+        simp only [decide_eq_true_eq] at hqk
+        rw [← hqk]
+        exact List.mem_map_of_mem hq
+      simp [hnil]
+    · simpa [List.filter_cons, hk] using hr
 
 end OxiVerif.C04
